@@ -88,6 +88,15 @@ def run_case(item):
     rkey = 'nokey' if 'r_key_attr' in faults else 'id'
     lattr = 'noattr' if 'l_attr' in faults else 's'
     rattr = 'noattr' if 'r_attr' in faults else 's'
+    # self-join: ONE DataFrame object passed as both tables, its valid key on the left and another column of it, which
+    # is not a key (duplicates / a missing value), as the right key - the right key must be checked all the same
+    selfjoin = bool(faults) and faults <= {'r_key_dup', 'r_key_nan'} and tid % 3 == 1 and len(ltab) >= 2 \
+        and entry not in ('SizeFilter', 'PrefixFilter', 'PositionFilter', 'SuffixFilter', 'OverlapFilter', 'profile')
+    if selfjoin:
+        ids = ltab['id'].tolist()
+        ltab['id2'] = pd.Series([ids[0]] + ids[:-1], dtype='int64') if 'r_key_dup' in faults else \
+            pd.Series([np.nan] + [float(v) for v in ids[1:]], dtype=float)
+        rarg, rkey = ltab, 'id2'
     lout = ['x', 'nope'] if 'l_out' in faults else ['x']
     rout = ['nope'] if 'r_out' in faults else None
     cand = pd.DataFrame({'_id': pd.Series(range(len(ltab) * len(rtab)), dtype='int64'),
@@ -157,7 +166,7 @@ def run_case(item):
 
         return result
     key_faults = faults & {'l_key_dup', 'l_key_nan', 'r_key_dup', 'r_key_nan'}
-    if key_faults and tid % 2 == 0 and entry not in ('SizeFilter', 'PrefixFilter', 'PositionFilter', 'SuffixFilter',
+    if key_faults and tid % 2 == 0 and not selfjoin and entry not in ('SizeFilter', 'PrefixFilter', 'PositionFilter', 'SuffixFilter',
                                                       'OverlapFilter', 'profile'):
         # the same call is first made with valid keys on the SAME DataFrame objects; the key column is then made
         # invalid in place (same number of rows) - the second call must still be rejected
